@@ -342,3 +342,29 @@ Theorem C03_records_exact_carv2_partial_as_found :
     = Ok (section_recs o (hlen roots) bs).
 Proof. exact load_index_as_found_seek_v2. Qed.
 Print Assumptions C03_records_exact_carv2_partial_as_found.
+
+(* ---- (8) GenerateIndexFromFile ---------------------------------------------------------------------------- *)
+From GoCarProofs Require Import IndexGetFirst.
+
+(* it is GenerateIndex over the opened file (a seekable source); a path that cannot be opened is an error *)
+Theorem C03_generate_index_from_file_is_generate_index :
+  forall (srt : list irec -> list irec) hdrdec codec o all,
+    generate_index_from_file_with srt hdrdec codec o (Some all) = generate_index_with srt hdrdec codec SrcSeek o all
+    /\ generate_index_from_file_with srt hdrdec codec o None = Err EOther.
+Proof. exact generate_index_from_file_is_generate_index. Qed.
+Print Assumptions C03_generate_index_from_file_is_generate_index.
+
+(* hence, for a CARv1 file and for a CARv2 file with any padding and trailer: the index of exactly the
+   section records (to which C03_lookup_exact / _sound / _not_found_iff_absent apply) *)
+Theorem C03_generate_index_from_file_valid :
+  forall (srt : list irec -> list irec) hdrdec codec i0 o hi lo ioff pad roots bs trailer,
+    idx_new codec = Some i0 ->
+    pragma_ok hdrdec o -> header_ok hdrdec o roots -> blocks_ok bs -> cids_fit o bs ->
+    hi < two64 -> lo < two64 -> ioff < two63 ->
+    blen (v2_container hi lo ioff pad (enc_payload roots bs) trailer) < two63 ->
+    generate_index_from_file_with srt hdrdec codec o (Some (enc_payload roots bs))
+    = Ok (idx_load_with srt (section_recs o (hlen roots) bs) i0) /\
+    generate_index_from_file_with srt hdrdec codec o (Some (v2_container hi lo ioff pad (enc_payload roots bs) trailer))
+    = Ok (idx_load_with srt (section_recs o (hlen roots) bs) i0).
+Proof. exact generate_index_from_file_valid. Qed.
+Print Assumptions C03_generate_index_from_file_valid.
